@@ -31,6 +31,7 @@ MUT_KINDS = ["cur_reg_set", "cur_reg_clear", "cur_cfa", "init_reg_set", "init_cf
 ABI_WEIGHTS = [("x64-elf", 45), ("arm64-elf", 25), ("mips32-elf", 20), ("x64-pe", 5), ("ia32-pe", 5)]
 # what the library answers where it deviates from the toolchain (only used to *name* the cause of a violation)
 LIB_DEFAULT_RA = {"arm64-elf": 32, "mips32-elf": 32}
+KNOWN = ["restore", "rel", "ra", "order"]  # generator knobs, one per known trigger
 
 
 # --------------------------------------------------------------------------
@@ -218,15 +219,20 @@ def mutate_copy(cp, kind):
 
 
 def _blamed_directive(exc):
-    """Name of the directive the evaluator was processing when it raised
-    (read-only look at the generator frame in the traceback)."""
+    """(name, index in its location) of the directive the evaluator was
+    processing when it raised (read-only look at the generator frame in the
+    traceback)."""
     tb = exc.__traceback__
-    name = None
+    name = idx = None
     while tb is not None:
         if tb.tb_frame.f_code.co_name == "evaluate_cfi_directives":
-            name = tb.tb_frame.f_locals.get("name")
+            loc = tb.tb_frame.f_locals
+            name = loc.get("name")
+            cur, lst = loc.get("directive"), loc.get("directives")
+            if isinstance(lst, list):
+                idx = next((i for i, d in enumerate(lst) if d is cur), None)
         tb = tb.tb_next
-    return name if isinstance(name, str) else None
+    return (name if isinstance(name, str) else None), idx
 
 
 class Outcome:
@@ -238,6 +244,7 @@ class Outcome:
         self.kinds = []  # step-kind sequence (interleaving measure)
         self.stats = collections.Counter()
         self.mutated_before = False
+        self.completed = 0  # yields that were checked and found equal to the reference
 
 
 def drive(scenario, steps, groups, consumer, prop):
@@ -286,11 +293,14 @@ def drive(scenario, steps, groups, consumer, prop):
             break
         except Exception as e:  # noqa: BLE001 - the exception type IS the observation
             tname = type(e).__name__
-            blamed = _blamed_directive(e)
+            blamed, bidx = _blamed_directive(e)
             out.kinds.append("raise")
-            wit = {"step": k, "exception": tname, "message": str(e)[:200], "directive": blamed, "group": group_names(k)}
-            if exp is not None and "error" in exp:
-                err = exp["error"]
+            wit = {"step": k, "exception": tname, "message": str(e)[:200], "directive": blamed, "index": bidx, "group": group_names(k)}
+            err = exp["error"] if exp is not None and "error" in exp else None
+            if err is not None and bidx is not None and bidx < err["index"]:
+                err = None  # raised by a directive BEFORE the one the reference blames: not the expected error
+                wit["expected_later"] = exp["error"]
+            if err is not None:
                 wit["expected"] = err
                 if tname in err["classes"]:
                     out.stats["fault." + err["kind"]] += 1
@@ -348,6 +358,7 @@ def drive(scenario, steps, groups, consumer, prop):
                 out.kinds.append("mutate")
                 out.stats["mutations"] += 1
         k += 1
+        out.completed = k
     # copies taken earlier must still describe THEIR step
     if out.violation is None or out.violation[0] in ("wrong-exception-type", "missed-error"):
         for c in sorted(copies):
@@ -395,20 +406,37 @@ def _isolate_procedure(scenario, groups, proc):
     return None
 
 
-def _restore_without_rule(scenario, groups, k):
+def _restore_without_rule(scenario, groups, k, index=None):
     """Does location k contain a .cfi_restore of a register that has neither
     a current nor an initial rule (per the reference)?"""
     abi = cfi_ref.ABIS[scenario["abi"]]
     m = cfi_ref.Machine(abi, scenario.get("ref"))
     for gi, (_, events) in enumerate(groups):
-        for ev in events:
-            if gi == k and ev[2] == ".cfi_restore" and m.s is not None and ev[3][0] not in m.s.regs and ev[3][0] not in m.s.init_regs:
+        for ei, ev in enumerate(events):
+            if gi == k and index in (None, ei) and ev[2] == ".cfi_restore" and m.s is not None and ev[3][0] not in m.s.regs and ev[3][0] not in m.s.init_regs:
                 return True
             if m.step(ev) is not None:
                 return False
         m.end_group()
         if gi == k:
             break
+    return False
+
+
+def _explains(vclass, sig, wit, k, s2):
+    """Would the reference variant ``s2`` have predicted what was observed at step k?"""
+    if k is None or k >= len(s2):
+        return False
+    st = s2[k]
+    if vclass == "state-diff":
+        f = sig["field"]
+        if f == "in_procedure":
+            return "state" in st and (st["state"] is not None) == wit["actual"]
+        return st.get("state") is not None and st["state"][f] == wit["actual"]
+    if vclass == "wrong-exception-type":
+        return "error" in st and wit["exception"] in st["error"]["classes"] and (wit.get("index") is None or wit["index"] == st["error"]["index"])
+    if vclass == "missed-error":
+        return "state" in st
     return False
 
 
@@ -423,29 +451,9 @@ def diagnose(prop, scenario, groups, steps, out):
         again = drive(scenario, steps, groups, None, prop)
         if again.violation is None or again.step > k:
             return "copy-aliasing", {"field": sig["field"], "when": "mutated-copy-leaks"}, wit
-    if vclass == "wrong-exception-type" and sig.get("exc") == "KeyError" and sig.get("directive") == ".cfi_restore":
-        if _restore_without_rule(scenario, groups, k):
+    if vclass == "wrong-exception-type" and sig.get("exc") == "KeyError" and sig.get("directive") == ".cfi_restore" and sig.get("expected") == "no-error":
+        if _restore_without_rule(scenario, groups, k, wit.get("index")):
             sig["cause"] = "no-initial-rule"
-            return vclass, sig, wit
-    # reference variants that model a known deviation of the library: only used to NAME the cause
-    abi = cfi_ref.ABIS[scenario["abi"]]
-    variants = []
-    if (scenario.get("ref") or {}).get("rel_offset", "dwarf") == "dwarf":
-        variants.append(("rel-offset-semantics", {"rel_offset": "library"}))
-    variants.append(("escape-byteorder", {"order": "little" if abi["order"] == "big" else "big"}))
-    if vclass == "state-diff" and sig.get("field") == "return_column" and isinstance(wit.get("actual"), int):
-        variants.append(("abi-default-return-column", {"ra": wit["actual"]}))
-    if vclass == "copy-aliasing":
-        variants = []
-    for cause, opts in variants:
-        g2, s2 = _expected(scenario, opts)
-        if s2 and "unspecified" in s2[-1]:
-            continue
-        again = drive(scenario, s2, g2, None, prop)
-        if again.violation is None or (again.step is not None and again.step > k):
-            sig["cause"] = cause
-            if cause != "rel-offset-semantics":
-                sig["abi"] = scenario["abi"]
             return vclass, sig, wit
     if vclass == "state-diff" and wit.get("procedure", 0) >= 2:
         # "reset between procedures" <=> a procedure's states do not depend on what preceded its .cfi_startproc
@@ -455,6 +463,28 @@ def diagnose(prop, scenario, groups, steps, out):
             again = drive(iso, s2, g2, None, prop)
             if again.violation is None:
                 return "no-reset", {"field": sig["field"]}, wit
+    # reference variants that model a known deviation of the library: only used to NAME the cause
+    abi = cfi_ref.ABIS[scenario["abi"]]
+    variants = []
+    if (scenario.get("ref") or {}).get("rel_offset", "dwarf") == "dwarf":
+        variants.append(("rel-offset-semantics", {"rel_offset": "library"}))
+    variants.append(("escape-byteorder", {"order": "little" if abi["order"] == "big" else "big"}))
+    if vclass == "state-diff" and sig.get("field") == "return_column" and isinstance(wit.get("actual"), int):
+        variants.append(("abi-default-return-column", {"ra": wit["actual"]}))
+    if vclass in ("state-diff", "wrong-exception-type", "missed-error") and sig.get("evaluation") != "second":
+        import itertools
+
+        for n in range(1, len(variants) + 1):
+            for combo in itertools.combinations(variants, n):
+                opts = {}
+                for _, o in combo:
+                    opts.update(o)
+                _, s2 = _expected(scenario, opts)
+                if _explains(vclass, sig, wit, k, s2):
+                    sig["cause"] = "+".join(c for c, _ in combo)
+                    if any(c != "rel-offset-semantics" for c, _ in combo):
+                        sig["abi"] = scenario["abi"]
+                    return vclass, sig, wit
     return vclass, sig, wit
 
 
@@ -490,8 +520,11 @@ def execute(prop, scenario, params):
         stats["reeval"] += 1
         kinds.append("reeval")
         if again.violation is not None:
+            first_done = out.completed
             out = again
-            out.violation = (again.violation[0], dict(again.violation[1], evaluation="second"), again.violation[2])
+            if again.step < first_done:
+                # the first evaluation passed this very step: something leaked from it
+                out.violation = (again.violation[0], dict(again.violation[1], evaluation="second"), again.violation[2])
     meta["interleavings"] = [core.digest(kinds)]
     if steps and "state" in steps[-1] and steps[-1]["state"] is not None and out.violation is None and "abandon" not in kinds:
         stats["fault.truncated"] += 1
@@ -639,14 +672,18 @@ class _Gen:
         r = self.r
         self.abi_name = params.get("abi") or _pick_w(streams.get("gen.module"), ABI_WEIGHTS)
         self.abi = cfi_ref.ABIS[self.abi_name]
-        self.avoid = streams.get("gen.knobs").random() < float(params.get("avoid_known", 0.8))
+        # known findings: with probability avoid_known steer away from every known trigger; otherwise expose ONE of
+        # them (or, one time in five, all) so that the findings do not mask each other either
+        rk = streams.get("gen.knobs")
+        self.avoid = rk.random() < float(params.get("avoid_known", 0.8))
+        self.expose = [] if self.avoid else rk.choice([KNOWN, ["restore"], ["rel"], ["ra"], ["order"]])
         self.ref = {"rel_offset": params.get("rel_offset_semantics", "dwarf")}
         self.m = cfi_ref.Machine(self.abi, self.ref)
         self.events = []  # (group, name, ops, sym, tag)
         self.group = 0
         self.p_break = r.choice([0.15, 0.4, 0.6, 0.85])
         self.symbols = ["sym%d" % i for i in range(r.randint(1, 3))]
-        self.invariant = self.avoid and self.abi["order"] == "big"
+        self.invariant = "order" not in self.expose and self.abi["order"] == "big"
         nf = _pick_w(self.rf, [(0, 45), (1, 38), (2, 12), (3, 5)])
         self.fault_budget = nf
         self.p_fault = 0.0 if nf == 0 else self.rf.choice([0.05, 0.12, 0.3])
@@ -748,16 +785,16 @@ class _Gen:
         elif k == "restore_state":
             self.emit(".cfi_restore_state")
         elif k == "restore":
-            if ruled and (self.avoid or r.random() < 0.7):
+            if ruled and ("restore" not in self.expose or r.random() < 0.7):
                 self.emit(".cfi_restore", [r.choice(ruled)])
-            elif not self.avoid:
+            elif "restore" in self.expose:
                 # valid DWARF: the register goes back to its (absent) initial rule.  Known trigger of a KeyError.
                 self.emit(".cfi_restore", [_reg(r)], tag="restore-without-rule")
         elif k == "rel_offset":
             if self.ref["rel_offset"] == "library":
                 reg = r.choice(sorted(x for x, v in s.regs.items() if v[0] == "offset"))
                 self.emit(".cfi_rel_offset", [reg, _off(r)])
-            elif self.avoid:
+            elif "rel" not in self.expose:
                 # only where the library's reading (old rule offset + N) and the assembler's (N - CFA offset) agree:
                 # the register currently is at offset(-CFA offset), e.g. right after a push
                 reg = _reg(r)
@@ -785,7 +822,7 @@ class _Gen:
         self.emit(".cfi_startproc", tag=None if self.abi["eh"] else "abi-refusal")
         if not self.in_proc():
             return  # ABI refusal
-        if self.avoid and self.abi["ra"] != LIB_DEFAULT_RA.get(self.abi_name, self.abi["ra"]):
+        if "ra" not in self.expose and self.abi["ra"] != LIB_DEFAULT_RA.get(self.abi_name, self.abi["ra"]):
             # known: the library's default return column differs from the toolchain's for this ABI; an explicit
             # .cfi_return_column at the startproc location keeps the rest of the run meaningful
             self.emit(".cfi_return_column", [self.abi["ra"] if r.random() < 0.7 else _reg(r)], glue=True)
@@ -852,7 +889,7 @@ def generate(streams, params):
         "engine": "cfisim",
         "abi": g.abi_name,
         "ref": g.ref,
-        "gen": {"avoid_known": g.avoid},
+        "gen": {"avoid_known": g.avoid, "expose": g.expose},
         "blocks": blocks,
         "pass": passed,
         "symbols": g.symbols,
@@ -925,7 +962,7 @@ def describe(scenario):
     return {
         "abi": scenario["abi"],
         "ref": scenario.get("ref"),
-        "avoid_known": (scenario.get("gen") or {}).get("avoid_known"),
+        "gen": scenario.get("gen"),
         "blocks": scenario["blocks"],
         "pass": scenario["pass"],
         "locations": [f"b{loc[0]}+{loc[1]}: " + "; ".join(_ev_str(e) for e in by[(loc[0], loc[1])]) for loc, _ in groups],
